@@ -116,7 +116,17 @@ func (h *Hub) Shutdown() {
 	h.muxStarted.Unlock()
 
 	h.mdns.Shutdown()
+
+	// closing a connection removes it from the connections map, also other goroutines may do so at the same time,
+	// so do not iterate over the map itself
+	h.muxCon.Lock()
+	connections := make([]api.ShipConnectionInterface, 0, len(h.connections))
 	for _, c := range h.connections {
+		connections = append(connections, c)
+	}
+	h.muxCon.Unlock()
+
+	for _, c := range connections {
 		c.CloseConnection(false, 0, "")
 	}
 	if h.httpServer == nil {
